@@ -113,10 +113,11 @@ def _struct_weight_loads(rng, nx, ny, sym):
 def _fuel_loads(rng, nx, ny, sym):
     from openaerostruct.structures.fuel_loads import FuelLoads
     s = _surf(rng, nx, ny, sym)
-    s["Wf_reserve"] = float(rng.uniform(0, 2000.0))
-    vols = rng.uniform(0.1, 2.0, size=ny - 1)
+    scale = float(10 ** rng.uniform(-4.5, 0)) if rng.uniform() < 0.5 else 1.0      # airliner tanks down to small-UAV tanks
+    s["Wf_reserve"] = float(rng.uniform(0, 2000.0)) * scale
+    vols = rng.uniform(0.1, 2.0, size=ny - 1) * scale
     return dict(factory=lambda: FuelLoads(surface=s), ints=[ny, int(sym)], consts=[s["Wf_reserve"]],
-                inputs=OrderedDict(nodes=_nodes(rng, s), fuel_vols=vols, fuel_mass=np.array([rng.uniform(1e3, 3e4)]),
+                inputs=OrderedDict(nodes=_nodes(rng, s), fuel_vols=vols, fuel_mass=np.array([rng.uniform(1e3, 3e4) * scale]),
                                    load_factor=np.array([rng.uniform(0.5, 2.5)])),
                 outputs=["fuel_weight_loads"], jtol=1e-6)
 
